@@ -15,6 +15,9 @@ ANON = ('truthy', ('opaque', 'flask_login.current_user.is_anonymous()'))
 def declare(c):
     c.rule('C13.R1', 'a region is appended only after no stored region had the same id; a replacement only hits the '
                      'region with the same id', floor=4)
+    c.rule('C13.R5', 'one id relation: on the add, update and delete routes a stored region\'s id is only ever compared raw, '
+                     'with ==, against the requested id - the uniqueness guard and the selectors of replace/delete share the '
+                     'relation; a replacement overwrites exactly the slot whose id compared equal', floor=6)
     c.rule('C13.R2', 'the anonymous-user test comes first and its refusal is effect free', floor=4)
     c.rule('C13.R3', 'every change of the region list is followed by exactly one notification before returning; no '
                      'change, no notification', floor=20)
@@ -61,6 +64,37 @@ def uniqueness_rule(ctx, I):
                 ctx.report('C13.R1', 'ExcludeRegionState.addRegion', 'append without walking the list',
                            'a region is appended without consulting the stored regions at all')
     ctx.sample({'rule': 'C13.R1', 'checked': 'add paths for both region types'})
+
+
+def relation_rule(ctx, I):
+    from .plugin import id_comparisons
+    for cmd in ('addExcludeRegion', 'updateExcludeRegion', 'deleteExcludeRegion'):
+        for rtype in ('RectangularRegion', 'CircularRegion'):
+            reported = set()
+            for p in run_api(I, cmd, rtype, {ANON: [False]}):
+                comps = id_comparisons(p)
+                muts = region_mutations(p)
+                ctx.instance('C13.R5', (cmd, rtype, repr(p.ret)[:40], tuple(m[1] for m in muts), len(comps)))
+                for (k, v, raw, slot) in comps:
+                    if not raw and repr(k) not in reported:
+                        reported.add(repr(k))
+                        ctx.report('C13.R5', 'ExcludeRegionState.%s' % {'addExcludeRegion': 'addRegion', 'updateExcludeRegion': 'replaceRegion',
+                                                                         'deleteExcludeRegion': 'deleteRegion'}[cmd],
+                                   '%s compares ids as %s' % (cmd, repr(k)[:140]),
+                                   'a stored region\'s id is compared through a conversion or with another operator than ==: '
+                                   'the uniqueness guard of add and this selector no longer agree on what "the same id" means '
+                                   '(two regions that are distinct for one are the same for the other)')
+                for (i, kind) in muts:
+                    if kind not in ('seq-set', 'seq-del'):
+                        continue
+                    ev = p.st.trace[i]
+                    idx = ev[2]
+                    hit = [slot for (k, v, raw, slot) in comps if raw and v == frozenset([True])]
+                    if not hit or not any(repr(getattr(idx, 'p', idx)) in h for h in hit):
+                        ctx.report('C13.R5', 'ExcludeRegionState.%s' % ('replaceRegion' if kind == 'seq-set' else 'deleteRegion'),
+                                   '%s changes a slot whose id did not compare equal' % cmd,
+                                   'the slot that is overwritten / removed is not the one whose id was found equal (==) to the '
+                                   'requested id (slot %r, equal: %s)' % (getattr(idx, 'p', idx), hit))
 
 
 def anonymous_rule(ctx, I):
@@ -158,6 +192,7 @@ def run(ctx, tier):
     I = make_interp(ctx.model, unroll=2 if tier == 'thorough' else 1)
     install_region_summaries(I)
     uniqueness_rule(ctx, I)
+    relation_rule(ctx, I)
     anonymous_rule(ctx, I)
     pairing_rule(ctx, I)
     payload_rule(ctx, I)
